@@ -12,6 +12,7 @@ use std::rc::Rc;
 
 mod cli_driver;
 mod hidden_driver;
+mod parse_driver;
 #[cfg(all(feature = "help", feature = "autocomplete", feature = "history"))]
 mod derive_driver;
 
@@ -1048,6 +1049,7 @@ fn main() {
         #[cfg(all(feature = "help", feature = "autocomplete", feature = "history"))]
         "derive_fail" => derive_driver::run_fail(&mut r, iters),
         "derive_hidden" => hidden_driver::run(&mut r, iters),
+        "derive_parse" => parse_driver::run(&mut r, iters),
         "cli" => cli_driver::run(&mut r, iters, ""),
         d if d.starts_with("cli:") => cli_driver::run(&mut r, iters, &d[4..]),
         _ => {
